@@ -3,7 +3,7 @@
    for ANY number of goroutines running ANY mix of the write APIs (and the read loop) on one connection, in ANY
    interleaving consistent with the mutexes and the atomic closed flag. *)
 From Coq Require Import List Bool Arith.
-From Gws Require Import Skel.IR Skel.Checker Skel.Monitors Skel.GlobalClose Skel.GlobalGuard Skel.Link Skel.Obligations Gen.Skel.
+From Gws Require Import Skel.IR Skel.Checker Skel.Monitors Skel.GlobalClose Skel.GlobalGuard Skel.Link Skel.Obligations Skel.OblClose Skel.OblFrame Skel.OblLock Skel.OblMisc Gen.Skel.
 Import ListNotations.
 
 (* every frame that reaches the transport is written by the thread that owns Conn.mu at that moment *)
